@@ -1,7 +1,376 @@
-From Coq Require Import ZArith QArith Qabs Qround List Bool Lia.
+(* C18 -- proofs about the codec model (Model/C18.v).  Everything here is over exact rationals and
+   closed under the global context; the real-number facts are in Proofs/C18_real.v. *)
+From Coq Require Import ZArith QArith Qabs Qround List Bool Lia Sorting.Sorted Sorting.Permutation Setoid.
 From PV Require Import Lib.Base Lib.Round Model.C18.
 Import ListNotations.
 #[local] Open Scope Q_scope.
 
-Lemma meanQ_single_placeholder : sumQ [1] == 1.
-Proof. simpl. ring. Qed.
+(* ---------- lists ---------- *)
+Lemma nth_map_seq {A} (f : nat -> A) n j d : (j < n)%nat -> nth j (map f (seq 0 n)) d = f j.
+Proof.
+  intros H. rewrite (nth_indep _ d (f O)) by (rewrite map_length, seq_length; exact H).
+  rewrite map_nth. rewrite seq_nth by exact H. reflexivity.
+Qed.
+
+Lemma map_const_repeat {A B} (c : B) (l : list A) : map (fun _ => c) l = repeat c (List.length l).
+Proof. induction l; simpl; congruence. Qed.
+
+Lemma sumQ_repeat x k : sumQ (repeat x k) == inject_Z (Z.of_nat k) * x.
+Proof.
+  induction k as [|k IH].
+  - simpl. ring.
+  - cbn [repeat sumQ]. rewrite IH. rewrite Nat2Z.inj_succ. unfold Z.succ. rewrite inject_Z_plus. ring.
+Qed.
+
+Lemma meanQ_repeat x k : meanQ (repeat x (S k)) == x.
+Proof.
+  unfold meanQ, lenQ. rewrite Qred_correct. rewrite sumQ_repeat. rewrite repeat_length.
+  field. intro H.
+  unfold Qeq in H. cbn [Qnum Qden inject_Z] in H. lia.
+Qed.
+
+(* ---------- groups_ok unpacked ---------- *)
+Lemma groups_ok_gidx G n j : groups_ok G n = true -> (j < n)%nat -> (gidx G j < List.length G)%nat.
+Proof.
+  unfold groups_ok. intros H Hj. apply andb_true_iff in H as [H _].
+  rewrite forallb_forall in H. specialize (H j). rewrite in_seq in H.
+  apply Nat.ltb_lt. apply H. lia.
+Qed.
+
+Lemma groups_ok_member G n i m :
+  groups_ok G n = true -> (i < List.length G)%nat -> In m (nth i G []) -> gidx G m = i /\ (m < n)%nat.
+Proof.
+  unfold groups_ok. intros H Hi Hm. apply andb_true_iff in H as [_ H].
+  rewrite forallb_forall in H. specialize (H i). rewrite in_seq in H.
+  assert (Hi' : (0 <= i < 0 + List.length G)%nat) by lia.
+  specialize (H Hi'). apply andb_true_iff in H as [H _].
+  rewrite forallb_forall in H. specialize (H m Hm). apply andb_true_iff in H as [H1 H2].
+  split; [apply Nat.eqb_eq; exact H1 | apply Nat.ltb_lt; exact H2].
+Qed.
+
+Lemma groups_ok_nonempty G n i :
+  groups_ok G n = true -> (i < List.length G)%nat -> exists k, List.length (nth i G []) = S k.
+Proof.
+  unfold groups_ok. intros H Hi. apply andb_true_iff in H as [_ H].
+  rewrite forallb_forall in H. specialize (H i). rewrite in_seq in H.
+  assert (Hi' : (0 <= i < 0 + List.length G)%nat) by lia.
+  specialize (H Hi'). apply andb_true_iff in H as [_ H].
+  apply negb_true_iff in H. apply Nat.eqb_neq in H.
+  destruct (List.length (nth i G [])) as [|k]; [congruence | exists k; reflexivity].
+Qed.
+
+(* ---------- cumulative onsets ---------- *)
+Lemma eq_on_shift first b1 b2 ds i :
+  (forall k, (k < i)%nat -> nthQ b1 k == nthQ b2 k) ->
+  eq_on 0 b1 ds i == eq_on first b2 ds i - first.
+Proof.
+  induction i as [|i IH]; intros H.
+  - simpl. ring.
+  - cbn [eq_on]. rewrite !Qred_correct. rewrite IH by (intros k Hk; apply H; lia).
+    rewrite (H i) by lia. ring.
+Qed.
+
+(* ================= the codec, for any normalisation with a left inverse ================= *)
+Section CodecProofs.
+  Variable NP : Type.
+  Variable scale : Q -> NP.
+  Variable pmean : list NP -> NP.
+  Variable rescale : NP -> Q.
+  Variable npdefault : NP.
+  Variables log2 exp2 : Q -> Q.
+  (* rescale inverts scale on positive beat periods (after the per-chord mean of equal parameters) *)
+  Hypothesis norm_inv : forall x k, 0 < x -> rescale (pmean (repeat (scale x) (S k))) == x.
+  (* 2 ** (log2 x) = x on positives *)
+  Hypothesis exp_log : forall x, 0 < x -> exp2 (log2 x) == x.
+
+  Variables (so sd po pd : list Q) (vel : list Z) (G : list (list nat)) (bp : list Q).
+  Hypothesis HG : groups_ok G (List.length so) = true.
+  Hypothesis Hbp : forall i, (i < List.length G)%nat -> 0 < nthQ bp i.
+
+  Let P := encode NP scale log2 so sd po pd vel G bp.
+  Let n := List.length so.
+
+  Lemma P_nth j : (j < n)%nat -> nth j P (pdefault NP npdefault) = enc_note NP scale log2 so sd po pd vel G bp j.
+  Proof. intros H. unfold P, encode. apply nth_map_seq. exact H. Qed.
+
+  Lemma dec_bp_ok i : (i < List.length G)%nat ->
+    dec_bp NP pmean rescale npdefault G P i == nthQ bp i.
+  Proof.
+    intros Hi. unfold dec_bp.
+    destruct (groups_ok_nonempty G n i HG Hi) as [k Hk].
+    rewrite (map_ext_in _ (fun _ => scale (nthQ bp i))).
+    - rewrite map_const_repeat, Hk. apply norm_inv. apply Hbp. exact Hi.
+    - intros m Hm. destruct (groups_ok_member G n i m HG Hi Hm) as [E Hmn].
+      rewrite P_nth by exact Hmn. unfold enc_note. cbn [p_np]. rewrite E. reflexivity.
+  Qed.
+
+  Lemma dec_bps_nth i : (i < List.length G)%nat ->
+    nthQ (dec_bps NP pmean rescale npdefault G P) i == nthQ bp i.
+  Proof.
+    intros Hi. unfold nthQ at 1, dec_bps. rewrite nth_map_seq by exact Hi. apply dec_bp_ok. exact Hi.
+  Qed.
+
+  Lemma dec_raw_ok j : (j < n)%nat ->
+    dec_raw NP pmean rescale npdefault so sd G P j == nthQ po j - enc_first po G.
+  Proof.
+    intros Hj. unfold dec_raw, dec_eq, dec_x.
+    rewrite P_nth by exact Hj. unfold enc_note. cbn [p_timing]. unfold enc_timing, enc_eq, enc_x.
+    pose proof (groups_ok_gidx G n j HG Hj) as Hg.
+    rewrite (eq_on_shift (enc_first po G) _ bp).
+    - ring.
+    - intros k Hk. apply dec_bps_nth. lia.
+  Qed.
+
+  (* O1, onsets: ONE shift for all notes, whatever the (positive) tempo curve *)
+  Lemma decode_encode_onsets_lemma :
+    exists shift, forall j, (j < n)%nat ->
+      fst (fst (nth j (decode NP pmean rescale npdefault exp2 so sd G P) (0, 0, 0%Z))) == nthQ po j + shift.
+  Proof.
+    exists (- enc_first po G - minl (dec_raws NP pmean rescale npdefault so sd G P)).
+    intros j Hj. unfold decode. rewrite nth_map_seq by exact Hj. cbn [fst].
+    unfold nthQ at 1, dec_raws at 1. rewrite nth_map_seq by exact Hj.
+    rewrite dec_raw_ok by exact Hj. ring.
+  Qed.
+
+  (* O1, durations of notes that have a score duration *)
+  Lemma decode_encode_duration_lemma j :
+    (j < n)%nat -> 0 < nthQ sd j -> 0 < nthQ pd j ->
+    snd (fst (nth j (decode NP pmean rescale npdefault exp2 so sd G P) (0, 0, 0%Z))) == nthQ pd j.
+  Proof.
+    intros Hj Hsd Hpd. unfold decode. rewrite nth_map_seq by exact Hj. cbn [fst snd].
+    unfold dec_dur_with. rewrite P_nth by exact Hj. unfold enc_note. cbn [p_art].
+    pose proof (groups_ok_gidx G n j HG Hj) as Hg.
+    rewrite dec_bps_nth by exact Hg.
+    pose proof (Hbp _ Hg) as Hb.
+    unfold enc_ratio.
+    destruct (Qle_bool (nthQ sd j) 0) eqn:E.
+    - apply Qle_bool_iff in E. exfalso. apply (Qlt_irrefl 0). eapply Qlt_le_trans; eauto.
+    - set (b := nthQ bp (gidx G j)) in *. set (s := nthQ sd j) in *. set (d := nthQ pd j) in *.
+      assert (Hbs : 0 < b * s).
+      { setoid_replace 0 with (0 * s) by ring. apply Qmult_lt_compat_r; assumption. }
+      assert (Hr : 0 < d / (b * s)).
+      { apply Qlt_shift_div_l; [exact Hbs | ]. setoid_replace (0 * (b * s)) with 0 by ring. exact Hpd. }
+      rewrite (exp_log _ Hr). field. split; intro Z0.
+      + rewrite Z0 in Hsd. exact (Qlt_irrefl _ Hsd).
+      + rewrite Z0 in Hb. exact (Qlt_irrefl _ Hb).
+  Qed.
+
+  (* boundary (known finding C18-K1): a note without score duration decodes to duration 0 *)
+  Lemma decode_grace_duration_lemma j :
+    (j < n)%nat -> nthQ sd j == 0 ->
+    snd (fst (nth j (decode NP pmean rescale npdefault exp2 so sd G P) (0, 0, 0%Z))) == 0.
+  Proof.
+    intros Hj Hsd. unfold decode. rewrite nth_map_seq by exact Hj. cbn [fst snd].
+    unfold dec_dur_with. rewrite Hsd. ring.
+  Qed.
+
+  Lemma decode_velocity_row j :
+    (j < n)%nat ->
+    snd (nth j (decode NP pmean rescale npdefault exp2 so sd G P) (0, 0, 0%Z)) = dec_vel (enc_vel (nth j vel 0%Z)).
+  Proof.
+    intros Hj. unfold decode. rewrite nth_map_seq by exact Hj. cbn [snd].
+    rewrite P_nth by exact Hj. reflexivity.
+  Qed.
+End CodecProofs.
+
+(* O1, velocity *)
+Lemma dec_enc_vel v : (1 <= v <= 127)%Z -> dec_vel (enc_vel v) = v.
+Proof.
+  intros H. unfold dec_vel, enc_vel.
+  assert (E : inject_Z v / 127 * 127 == inject_Z v) by (field; discriminate).
+  rewrite E. rewrite round_half_even_Z. lia.
+Qed.
+
+(* the floor of to_matched_score (known finding C18-K2) is the identity from 0.075 s on *)
+Lemma floor_pdur_id d : floor_pdur <= d -> Qmaxb d floor_pdur == d.
+Proof.
+  intros H. unfold Qmaxb. destruct (Qle_bool d floor_pdur) eqn:E; [|reflexivity].
+  apply Qle_bool_iff in E. apply Qle_antisym; assumption.
+Qed.
+Lemma floor_pdur_short d : d < floor_pdur -> Qmaxb d floor_pdur == floor_pdur.
+Proof.
+  intros H. unfold Qmaxb. destruct (Qle_bool d floor_pdur) eqn:E; [reflexivity|].
+  exfalso. assert (Qle_bool d floor_pdur = true) by (apply Qle_bool_iff, Qlt_le_weak; exact H). congruence.
+Qed.
+
+(* the rational normalisations satisfy the hypothesis *)
+Lemma norm_inv_id x k : 0 < x -> (fun y : Q => y) (meanQ (repeat (id_scale x) (S k))) == x.
+Proof. intros _. cbv beta. unfold id_scale. apply meanQ_repeat. Qed.
+
+Lemma norm_inv_ratio mu x k : ~ mu == 0 -> 0 < x ->
+  ratio_rescale (ratio_pmean (repeat (ratio_scale mu x) (S k))) == x.
+Proof.
+  intros Hmu _. unfold ratio_rescale, ratio_pmean, ratio_scale. cbn [fst snd].
+  rewrite !map_repeat. cbn [fst snd]. rewrite !meanQ_repeat. field. exact Hmu.
+Qed.
+
+(* ---------- piecewise linear interpolation passes through its knots ---------- *)
+Definition fst_lt (a b : Q * Q) : Prop := fst a < fst b.
+
+Lemma seg_left x0 y0 x1 y1 : seg x0 y0 x1 y1 x0 == y0.
+Proof. unfold seg. rewrite Qred_correct. unfold Qdiv. ring. Qed.
+Lemma seg_right x0 y0 x1 y1 : x0 < x1 -> seg x0 y0 x1 y1 x1 == y1.
+Proof.
+  intros H. unfold seg. rewrite Qred_correct. field. intro E.
+  assert (E' : x1 == x0) by (setoid_replace x1 with ((x1 - x0) + x0) by ring; rewrite E; ring).
+  rewrite E' in H. exact (Qlt_irrefl _ H).
+Qed.
+
+Lemma seg_comp_x x0 y0 x1 y1 x x' : x == x' -> seg x0 y0 x1 y1 x == seg x0 y0 x1 y1 x'.
+Proof. intros E. unfold seg. rewrite !Qred_correct. rewrite E. reflexivity. Qed.
+
+Lemma interp_from_knot rest : forall x0 y0,
+  StronglySorted fst_lt ((x0, y0) :: rest) ->
+  forall x y, In (x, y) ((x0, y0) :: rest) -> interp_from x0 y0 rest x == y.
+Proof.
+  induction rest as [|[x1 y1] rest' IH]; intros x0 y0 HS x y HIn.
+  - destruct HIn as [E | []]. inversion E; subst. simpl. reflexivity.
+  - inversion HS as [|? ? HS' HF]; subst.
+    assert (H01 : x0 < x1).
+    { rewrite Forall_forall in HF. apply (HF (x1, y1)). left; reflexivity. }
+    destruct HIn as [E | HIn].
+    + inversion E; subst. cbn [interp_from].
+      destruct rest' as [|k r].
+      * apply seg_left.
+      * assert (T : Qle_bool x x1 = true) by (apply Qle_bool_iff, Qlt_le_weak; exact H01).
+        rewrite T. apply seg_left.
+    + cbn [interp_from]. destruct rest' as [|k r].
+      * destruct HIn as [E | []]. inversion E; subst. apply seg_right. exact H01.
+      * destruct (Qle_bool x x1) eqn:T.
+        -- apply Qle_bool_iff in T.
+           destruct HIn as [E | HIn].
+           ++ inversion E; subst. apply seg_right. exact H01.
+           ++ exfalso. inversion HS' as [|? ? _ HF']; subst.
+              rewrite Forall_forall in HF'. specialize (HF' (x, y) HIn). unfold fst_lt in HF'. cbn [fst] in HF'.
+              apply (Qlt_irrefl x). eapply Qle_lt_trans; eauto.
+        -- apply (IH x1 y1 HS' x y). exact HIn.
+  Qed.
+
+Lemma lin_interp_knot K x y : StronglySorted fst_lt K -> In (x, y) K -> lin_interp K x == y.
+Proof.
+  destruct K as [|[x0 y0] r]; intros HS HIn; [destruct HIn|].
+  unfold lin_interp. apply interp_from_knot; assumption.
+Qed.
+
+(* ---------- insertion sort ---------- *)
+Section SortP.
+  Context {A : Type} (leb : A -> A -> bool).
+  Hypothesis leb_total : forall a b, leb a b = true \/ leb b a = true.
+  Let R (x y : A) := leb x y = true.
+
+  Lemma insert_perm a l : Permutation (insert_s leb a l) (a :: l).
+  Proof.
+    induction l as [|y r IH]; simpl; [reflexivity|].
+    destruct (leb a y); [reflexivity|]. rewrite IH. apply perm_swap.
+  Qed.
+  Lemma isort_perm l : Permutation (isort leb l) l.
+  Proof. induction l as [|a r IH]; simpl; [constructor|]. rewrite insert_perm. constructor. exact IH. Qed.
+
+  Lemma insert_sorted a l : Sorted R l -> Sorted R (insert_s leb a l).
+  Proof.
+    induction l as [|y r IH]; intros H; simpl.
+    - repeat constructor.
+    - destruct (leb a y) eqn:E.
+      + constructor; [exact H | constructor; exact E].
+      + inversion H as [|? ? Hs Hh]; subst. constructor; [apply IH; exact Hs|].
+        assert (Hya : R y a) by (destruct (leb_total a y) as [X|X]; [congruence | exact X]).
+        destruct r as [|z r']; simpl.
+        * constructor. exact Hya.
+        * destruct (leb a z); constructor; [exact Hya | inversion Hh; assumption].
+  Qed.
+  Lemma isort_sorted l : Sorted R (isort leb l).
+  Proof. induction l as [|a r IH]; simpl; [constructor | apply insert_sorted; exact IH]. Qed.
+
+  (* sorting a strictly sorted list changes nothing *)
+  Lemma insert_head a l : Forall (fun y => leb a y = true) l -> insert_s leb a l = a :: l.
+  Proof. intros H. destruct l as [|y r]; simpl; [reflexivity|]. inversion H; subst. rewrite H2. reflexivity. Qed.
+  Lemma isort_id l : StronglySorted R l -> isort leb l = l.
+  Proof.
+    induction 1 as [|a l HS IH HF]; simpl; [reflexivity|].
+    rewrite IH. apply insert_head. exact HF.
+  Qed.
+End SortP.
+
+(* ---------- time maps: both directions pass through the knots ---------- *)
+Definition snd_lt (a b : Q * Q) : Prop := snd a < snd b.
+
+Lemma SS_map_swap K : StronglySorted snd_lt K -> StronglySorted fst_lt (map swap K).
+Proof.
+  induction 1 as [|a l HS IH HF]; simpl; constructor; [exact IH|].
+  rewrite Forall_forall in *. intros b Hb. apply in_map_iff in Hb as [c [E Hc]]. subst b.
+  unfold fst_lt, swap; cbn [fst snd]. apply (HF c Hc).
+Qed.
+
+Lemma SS_fst_lt_leb K : StronglySorted fst_lt K -> StronglySorted (fun x y => qkey_leb fst x y = true) K.
+Proof.
+  induction 1 as [|a l HS IH HF]; constructor; [exact IH|].
+  rewrite Forall_forall in *. intros b Hb. unfold qkey_leb. apply Qle_bool_iff, Qlt_le_weak. exact (HF b Hb).
+Qed.
+
+Lemma time_maps_lemma K :
+  StronglySorted fst_lt K -> StronglySorted snd_lt K ->
+  forall u p, In (u, p) K -> stime_to_ptime K u == p /\ ptime_to_stime K p == u.
+Proof.
+  intros H1 H2 u p HIn. split.
+  - apply lin_interp_knot; assumption.
+  - unfold ptime_to_stime. pose proof (SS_map_swap K H2) as H3.
+    rewrite (isort_id _ _ (SS_fst_lt_leb _ H3)).
+    apply lin_interp_knot; [exact H3|].
+    apply in_map_iff. exists (u, p). split; [reflexivity | exact HIn].
+Qed.
+
+(* ---------- matched-note table ---------- *)
+Lemma find_idx_Some id ids i : find_idx id ids = Some i ->
+  (i < List.length ids)%nat /\ nth i ids (-1)%Z = id /\ forall k, (k < i)%nat -> nth k ids (-1)%Z <> id.
+Proof.
+  revert i. induction ids as [|x r IH]; intros i H; simpl in H; [discriminate|].
+  destruct (Z.eqb id x) eqn:E.
+  - inversion H; subst. apply Z.eqb_eq in E. subst. simpl. repeat split; [lia | intros k Hk; lia].
+  - destruct (find_idx id r) as [i'|] eqn:F; simpl in H; [|discriminate]. inversion H; subst.
+    destruct (IH i' eq_refl) as [A [B C]]. simpl. repeat split; [lia | exact B |].
+    intros k Hk. destruct k as [|k]; [apply Z.eqb_neq in E; congruence | apply C; lia].
+Qed.
+Lemma find_idx_None id ids : find_idx id ids = None <-> ~ In id ids.
+Proof.
+  induction ids as [|x r IH]; simpl; [tauto|].
+  destruct (Z.eqb id x) eqn:E.
+  - apply Z.eqb_eq in E. subst. split; [discriminate | intros H; exfalso; apply H; left; reflexivity].
+  - apply Z.eqb_neq in E. destruct (find_idx id r); simpl; split; intros H; try discriminate.
+    + exfalso. destruct IH as [_ IH]. assert (X : ~ In id r) by (intros Y; apply H; right; exact Y).
+      specialize (IH X). discriminate.
+    + intros [X | X]; [congruence | apply IH in X; [exact X | reflexivity]].
+    + reflexivity.
+Qed.
+
+(* exactly the alignment's matches whose ids exist on both sides (as first positions in the id columns) *)
+Lemma matched_idx_spec sids pids al i j :
+  In (i, j) (matched_idx sids pids al) <->
+  exists s p, In (0%Z, s, p) al /\ find_idx s sids = Some i /\ find_idx p pids = Some j.
+Proof.
+  unfold matched_idx. rewrite in_flat_map. split.
+  - intros [[[lab s] p] [Ha Hin]].
+    destruct (Z.eqb lab 0) eqn:E; [|destruct Hin].
+    apply Z.eqb_eq in E. subst lab.
+    destruct (find_idx s sids) as [i'|] eqn:F1; [|destruct Hin].
+    destruct (find_idx p pids) as [j'|] eqn:F2; [|destruct Hin].
+    destruct Hin as [X | []]. inversion X; subst. exists s, p. auto.
+  - intros [s [p [Ha [F1 F2]]]]. exists (0%Z, s, p). split; [exact Ha|].
+    simpl. rewrite F1, F2. left; reflexivity.
+Qed.
+
+(* in alignment order: one entry more in the alignment adds (at most) its pair at the end *)
+Lemma matched_idx_app sids pids al1 al2 :
+  matched_idx sids pids (al1 ++ al2) = matched_idx sids pids al1 ++ matched_idx sids pids al2.
+Proof. unfold matched_idx. apply flat_map_app. Qed.
+
+Lemma lex3_total a b : lex3_leb a b = true \/ lex3_leb b a = true.
+Proof. destruct a as [[a1 a2] a3], b as [[b1 b2] b3]. unfold lex3_leb. lia. Qed.
+
+Lemma matched_sorted_spec sna pna al :
+  Permutation (matched_sorted sna pna al) (matched_idx (map s_id sna) (map p_id pna) al) /\
+  Sorted (fun a b => lex3_leb (key3 sna a) (key3 sna b) = true) (matched_sorted sna pna al).
+Proof.
+  unfold matched_sorted. split.
+  - apply isort_perm.
+  - apply isort_sorted. intros a b. apply lex3_total.
+Qed.
